@@ -14,9 +14,17 @@ def install_common(eng):
     I = eng.intercepts
     eng.models_used = set()
 
+    TAINT_RESULTS = {'math/bits.Add64': 2, 'math/bits.Sub64': 2, 'math/bits.Mul64': 2, 'math/bits.Add32': -2, 'math/bits.Sub32': -2,
+                     'math/bits.RotateLeft32': -1, 'math/bits.RotateLeft64': 1}
+
     def reg(name, fn):
         def wrap(e, args, ins, fn=fn, name=name):
             e.models_used.add(name)
+            if getattr(e, 'taint', False) and name in TAINT_RESULTS and any(is_sym(force(a)) for a in args):
+                k = TAINT_RESULTS[name]
+                w = 64 if k > 0 else 32
+                s = z3.BitVec('secret%d' % w, w)
+                return s if abs(k) == 1 else (s, s)
             return fn(e, args, ins)
         I[name] = wrap
 
